@@ -301,38 +301,42 @@ func c15r4(c *an.Ctx) {
 				}
 				return nil
 			},
-			Branch: func(st string, br *ssa.If, idx int) (string, bool) {
-				cond, neg := an.StripNot(br.Cond)
-				truth := (idx == 0) != neg
-				if x, trueNonNil, ok := nilTestOf(br.Cond); ok && isLoadOfField(x, pa.exp) {
-					if (idx == 0) != trueNonNil {
-						return addTag(st, "owner"), true // no timer
-					}
-					return st, true
+		}
+		// learn is what a path learns from the truth of a condition, wherever it is tested: at a branch, or later
+		// through a flag the condition was computed into (expired := ...; if expired ...)
+		learn := func(st string, condV ssa.Value, val bool) (string, bool) {
+			cond, neg := an.StripNot(condV)
+			truth := val != neg
+			if x, trueNonNil, ok := nilTestOf(cond); ok && isLoadOfField(x, pa.exp) {
+				if truth != trueNonNil {
+					return addTag(st, "owner"), true // no timer
 				}
-				if call, ok := cond.(*ssa.Call); ok {
-					if obj := an.CalleeObj(call.Common()); obj != nil && obj.FullName() == timerStop && truth {
-						return addTag(st, "owner"), true
-					}
-					if an.IsCallTo(call.Common(), closedFn) {
-						arg := call.Common().Args[0]
-						if inv, ok := arg.(*ssa.Call); ok && inv.Common().IsInvoke() {
-							switch inv.Common().Method.Name() {
-							case "Unblocked":
-								if truth {
-									return addTag(st, "unblocked"), true
-								}
-							case "Closed":
-								if !truth {
-									return addTag(st, "open"), true
-								}
+				return st, true
+			}
+			if call, ok := cond.(*ssa.Call); ok {
+				if obj := an.CalleeObj(call.Common()); obj != nil && obj.FullName() == timerStop && truth {
+					return addTag(st, "owner"), true
+				}
+				if an.IsCallTo(call.Common(), closedFn) {
+					arg := call.Common().Args[0]
+					if inv, ok := arg.(*ssa.Call); ok && inv.Common().IsInvoke() {
+						switch inv.Common().Method.Name() {
+						case "Unblocked":
+							if truth {
+								return addTag(st, "unblocked"), true
+							}
+						case "Closed":
+							if !truth {
+								return addTag(st, "open"), true
 							}
 						}
 					}
 				}
-				return st, true
-			},
+			}
+			return st, true
 		}
+		flow.Branch = func(st string, br *ssa.If, idx int) (string, bool) { return learn(st, br.Cond, idx == 0) }
+		flow.OnFact = learn
 		return flow.Run()
 	}
 	// Take
